@@ -160,6 +160,12 @@ theorem any_sequence_with_joins_keeps_indices_in_range (n c : Nat) (hc : 0 < c) 
 theorem merge_of_any_graphs_keeps_indices_in_range (x hx : GX L D) (h : MSX x) (left right : Nat) :
     MSX (mergeX x hx left right).1 := msx_mergeX x hx h left right
 
+/-- **where a call panics on a graph with removed slots**: exactly at an id argument that cannot be read (at or above the
+    capacity, or removed by `join`), at one of the points of `panics_exactly_at`, or — `data` only — when the read makes a
+    group die that has a removed member (the collection loop's `get_mut(member).unwrap()`); never anywhere else -/
+theorem panics_exactly_at_with_removed_slots (x : GX L D) (op : Op L D) :
+    (stepX x (.core op)).2 = none ↔ PanicsX x op := panicsX_iff x op
+
 /-! non-vacuity: the smallest situation in which `join` runs. Left: ν0 with kids ν1 (label 0) and ν2 (label 1). A right
     graph whose root has *one* kid under both labels maps that kid to ν1 in the first loop; the second loop then finds ν2
     under label 1 and calls `join(ν2, ν1)` — the step `fix 0 1 1`: the edge into ν1 is re-targeted to ν2 and slot 1 is
